@@ -436,7 +436,13 @@ def dispatch(ctx):
             st = astq.enclosing_stmt(pm, c)
             if isinstance(st, ast.Assign) and st.value is c:
                 popped_vars.update(t.id for t in st.targets if isinstance(t, ast.Name))
-    ok = (isinstance(v.func, ast.Attribute) and v.func.attr == "from_alias" and astq.is_name(v.func.value, fc)
+    vfunc = v.func
+    if isinstance(vfunc, ast.Name):
+        # the bound method held in a local: read through its single definition
+        defs = [n for n in f.body_nodes() if isinstance(n, ast.Assign) and any(astq.is_name(t, vfunc.id) for t in n.targets)]
+        if len(defs) == 1:
+            vfunc = defs[0].value
+    ok = (isinstance(vfunc, ast.Attribute) and vfunc.attr == "from_alias" and astq.is_name(vfunc.value, fc)
           and len(v.args) == 1 and isinstance(v.args[0], ast.Name) and v.args[0].id in popped_vars
           and len(v.keywords) == 1 and isinstance(v.keywords[0].value, ast.Name))
     ctx.check(ok, R, f, last[0], "the remaining items are forwarded as keyword arguments to %s.from_alias" % fc,
